@@ -17,12 +17,73 @@ def load_spec():
         return json.load(fh)
 
 
+def _ctor_sizing(prog, c, cls, field, depth=0):
+    """how constructor c of cls sizes `field`: ('const', K) / ('same-as-source',) / None"""
+    R = Renderer(c)
+    # member initialiser
+    for i in c.rec.get('inits', []):
+        if i.get('field') == field and i['written']:
+            e = c.nodes[c.strip(i['expr'], 'noop')]
+            while e['k'] in ('ExprWithCleanups', 'MaterializeTemporaryExpr', 'CXXBindTemporaryExpr') and e['ch']:
+                e = c.nodes[c.strip(e['ch'][0], 'noop')]
+            if e['k'] == 'CXXConstructExpr':
+                args = e.get('args', [])
+                real = [a for a in args if c.nodes[c.strip(a, 'all')]['k'] != 'CXXDefaultArgExpr']
+                if len(real) in (1, 2):
+                    a0 = c.nodes[c.strip(real[0], 'all')]
+                    a0n = c.nodes[c.strip(real[0], 'noop')]
+                    if 'cv' in a0 and a0n.get('tc') in ('u', 's') and e['callee'].get('class', '').startswith('std::vector'):
+                        return ('const', int(a0['cv']))
+                    if len(real) == 1 and R.render(real[0]) == 'arg0.' + field and c.rec.get('copy'):
+                        return ('same-as-source',)
+                    if len(real) == 2:
+                        r0, r1 = R.render(real[0]), R.render(real[1])
+                        m = re.match(r'^%s\.operator\+\((\d+)\)$' % re.escape(r0), r1) or re.match(r'^\(%s \+ (\d+)\)$' % re.escape(r0), r1)
+                        if m and r0.endswith('.begin()'):
+                            return ('const', int(m.group(1)))
+                        if r0.endswith('.begin()') and r1 == r0[:-len('.begin()')] + '.end()' and r0 == 'arg0.%s.begin()' % field and c.rec.get('copy'):
+                            return ('same-as-source',)
+    # resize(K) in the body
+    for n in c.calls():
+        o = c.call_obj(n)
+        if o is not None and n['callee']['name'] == 'resize' and len(c.call_args(n)) >= 1:
+            on = c.nodes[c.strip(o, 'all')]
+            a = c.nodes[c.strip(c.call_args(n)[0], 'all')]
+            if on['k'] == 'MemberExpr' and on.get('member') == field and 'cv' in a:
+                return ('const', int(a['cv']))
+    # delegation to another constructor of the class
+    if depth < 3:
+        for n in c.all_nodes({'CXXConstructExpr'}):
+            if n['callee'].get('class') == cls and n['callee'].get('usr') != c.usr and n['id'] in [i['expr'] for i in c.rec.get('inits', []) if not i.get('field')] + \
+                    [c.strip(i['expr'], 'noop') for i in c.rec.get('inits', []) if not i.get('field')]:
+                t = prog.funcs.get(n['callee']['usr'])
+                if t is not None:
+                    return _ctor_sizing(prog, t, cls, field, depth + 1)
+    # whole-vector copy in a copy constructor / assignment from the source's same member
+    if c.rec.get('copy'):
+        for g, nid, rhs in _c18.field_writes(prog, cls, field):
+            if g is c and rhs is not None and R.render(rhs) == 'arg0.' + field:
+                return ('same-as-source',)
+    return None
+
+
 def vector_size_invariant(prog, cls, field):
-    """constant K such that every user constructor of cls does field.resize(K) and no other
-    function of cls changes the size of field; else None"""
+    """constant K such that every constructor of cls leaves field with exactly K elements (resize(K),
+    a sized member initialiser, delegation to such a constructor, or - in a copy constructor - a copy
+    of the source's same member) and no other function of cls changes the size of field; else None"""
+    ctors = [f for f in prog.repo_funcs() if f.cls == cls and f.kind == 'ctor' and not f.implicit and not f.rec.get('move')]
+    if not [c for c in ctors if not c.rec.get('copy')]:
+        return None
     K = None
-    ctors = [f for f in prog.repo_funcs() if f.cls == cls and f.kind == 'ctor' and not f.rec.get('copy') and not f.rec.get('move')]
-    if not ctors:
+    for c in ctors:
+        sz = _ctor_sizing(prog, c, cls, field)
+        if sz is None:
+            return None
+        if sz[0] == 'const':
+            if K is not None and K != sz[1]:
+                return None
+            K = sz[1]
+    if K is None:
         return None
     for f in prog.repo_funcs():
         if f.cls != cls:
@@ -38,28 +99,15 @@ def vector_size_invariant(prog, cls, field):
             eff = FX.STD_MUT.get(c['name'], 'call:' + c['name'])
             if eff is None:
                 continue
-            if eff == 'resize' and f.kind == 'ctor' and len(f.call_args(n)) == 1:
+            if eff == 'resize' and len(f.call_args(n)) >= 1:
                 a = f.nodes[f.strip(f.call_args(n)[0], 'all')]
-                if 'cv' in a:
-                    k = int(a['cv'])
-                    if K is None or K == k:
-                        K = k
-                        continue
+                if 'cv' in a and int(a['cv']) == K:
+                    continue
             return None
-        # whole-vector assignment
+        # whole-vector assignment outside the constructors
         for g, nid, rhs in _c18.field_writes(prog, cls, field):
-            if g is f and not f.implicit:
+            if g is f and not f.implicit and f.kind != 'ctor':
                 return None
-    for c in ctors:
-        has = False
-        for n in c.calls():
-            o = c.call_obj(n)
-            if o is not None and n['callee']['name'] == 'resize':
-                on = c.nodes[c.strip(o, 'all')]
-                if on['k'] == 'MemberExpr' and on.get('member') == field:
-                    has = True
-        if not has:
-            return None
     return K
 
 
@@ -407,6 +455,21 @@ class Checker:
         self.failed = True
         self.res.undecided(self.rule, '%s.%s' % (self.prefix, slot), where, detail, function=self.fn.sig, expr='%s.%s' % (self.prefix, slot))
 
+    def shape(self, slot, where, detail):
+        """the code is not in the shape this expectation reads (no demonstrated mismatch of a field)"""
+        return self.unknown(slot, where, detail + ' [shape not read by the rule]')
+
+    def want_loop(self, slot, lp, reps, what):
+        """lp must be a counted loop whose trip count is one of `reps` (renderings).  A counted loop with
+        another recognisable trip count is a demonstrated mismatch; anything else is an unknown shape."""
+        if lp is not None and lp[0] == 'loop' and lp[1] is not None and pshow(lp[1]) in reps:
+            return True
+        if lp is not None and lp[0] == 'loop' and lp[1] is not None and recognisable(lp):
+            self.bad(slot, self.where(lp), '%s: the loop runs %s times, specified %s' % (what, pshow(lp[1]), reps[0]))
+        else:
+            self.shape(slot, self.where(lp), '%s, found %s' % (what, _describe(lp)))
+        return False
+
     def skip_slots(self):
         out = []
         while self.peek() is not None and self.peek()[0] == 'slot':
@@ -612,9 +675,9 @@ def group_writer_rule(prog, res, rule='group-write'):
     ck.w_string('desc', 'this._description', 'this._description.size', cite=L['desc']['cite'])
     if var is not None:
         ck.slot_patch('next', var, 2, value=['$end.operator-($slot)'])
-    lp = ck.take(('loop',))
-    if lp is None or pshow(lp[1]) != 'this._parameters.size':
-        ck.bad('parameters', ck.where(lp), 'expected one parameter record per parameter of the group, found %s' % describe(lp))
+    lp = ck.take(('loop',)) or ck.peek()
+    if not ck.want_loop('parameters', lp, ['this._parameters.size'], 'expected one parameter record per parameter of the group'):
+        pass
     else:
         inner = io_only(lp[3])
         if len(inner) == 1 and inner[0][0] == 'call' and inner[0][1].qname.endswith('Parameter::write'):
@@ -624,7 +687,7 @@ def group_writer_rule(prog, res, rule='group-write'):
             else:
                 ck.bad('parameters', ck.where(lp), 'parameter records are written with %s (expected element i, stream, -groupIdx, the DATA_START position)' % sub)
         else:
-            ck.bad('parameters', ck.where(lp), 'loop body is not exactly one Parameter::write call')
+            ck.shape('parameters', ck.where(lp), 'loop body is not exactly one Parameter::write call')
     ck.done()
 
 
@@ -634,19 +697,19 @@ def recursion_scheme(prog, f, cur_param, dim_param, leaf_kind):
     seq = io_only(codec.Extractor(prog, leaf_kind).seq_of(f))
     top = [it for it in seq if it[0] in ('loop', 'io', 'alt', 'call')]
     if len(top) != 1 or top[0][0] != 'loop':
-        return False, 'body is not a single loop', None
+        return False, 'shape: body is not a single loop', None
     lp = top[0]
     if pshow(lp[1]) != 'arg%d[arg%d]' % (dim_param, cur_param):
         return False, 'loop bound is %s, expected dim[currentIdx]' % pshow(lp[1]), None
     inner = io_only(lp[3])
     if len(inner) != 1 or inner[0][0] != 'alt':
-        return False, 'loop body is not a single if/else on the recursion depth', None
+        return False, 'shape: loop body is not a single if/else on the recursion depth', None
     alt = inner[0]
     if alt[1] not in ('(arg%d == (arg%d.size - 1))' % (cur_param, dim_param), '((arg%d.size - 1) == arg%d)' % (dim_param, cur_param)):
         return False, 'leaf test is %s, expected currentIdx == dim.size()-1' % alt[1], None
     els = io_only(alt[3])
     if len(els) != 1 or els[0][0] != 'call' or els[0][1].usr != f.usr:
-        return False, 'non-leaf branch is not exactly the recursive call', None
+        return False, 'shape: non-leaf branch is not exactly the recursive call', None
     sub = els[0][2]
     if sub.get('arg%d' % cur_param) != '(arg%d + 1)' % cur_param or sub.get('arg%d' % dim_param) != 'arg%d' % dim_param:
         return False, 'recursive call passes %s / %s, expected (dim, currentIdx + 1)' % (sub.get('arg%d' % dim_param), sub.get('arg%d' % cur_param)), None
@@ -666,11 +729,14 @@ def parameter_writer_rule(prog, res, rule='parameter-write'):
     # scalar special case
     alt = ck.take(('alt',))
     if alt is None:
-        ck.bad('ndims', ck.where(alt), 'expected the scalar / dimension-list alternative')
+        ck.shape('ndims', ck.where(ck.peek()), 'expected the scalar / dimension-list alternative, found %s' % _describe(ck.peek()))
     else:
         SC = ('((this._dimension.size == 1) && (this._dimension[0] == 1))', '((this._dimension[0] == 1) && (this._dimension.size == 1))')
         o = orient(alt, SC)
-        if o is None:
+        if o is None and not re.match(r'^[()!&|=<> \d]*(?:(?:this\._dimension\.size|this\._dimension\[0\]|\(unsigned long\)|\(int\))[()!&|=<> \d]*)+$', alt[1]):
+            ck.shape('ndims.scalar-test', ck.where(alt), 'the scalar test %s is not a comparison of the dimension list the rule reads' % alt[1])
+            o = (alt[2], alt[3])
+        elif o is None:
             ck.bad('ndims.scalar-test', ck.where(alt), 'a parameter is written as a scalar (0 dimensions) when %s; the reader turns 0 dimensions into exactly [1], so '
                    'the test must be dimension == [1]' % alt[1], facts={'cite': L['ndims']['cite']})
             o = (alt[2], alt[3])
@@ -682,9 +748,9 @@ def parameter_writer_rule(prog, res, rule='parameter-write'):
         c1.done()
         c2 = Checker(prog, res, rule, f, alt[3], 'parameter.matrix')
         c2.w_object('ndims', 1, vals=['this._dimension.size'], cite=L['ndims']['cite'])
-        lp = c2.take(('loop',))
-        if lp is None or pshow(lp[1]) != 'this._dimension.size':
-            c2.bad('dims', c2.where(lp), 'expected one byte per dimension, found %s' % describe(lp))
+        lp = c2.take(('loop',)) or c2.peek()
+        if not c2.want_loop('dims', lp, ['this._dimension.size'], 'expected one byte per dimension'):
+            pass
         else:
             c3 = Checker(prog, res, rule, f, lp[3], 'parameter.matrix')
             d = c3.w_object('dims', 1, cite=L['dims']['cite'])
@@ -695,7 +761,9 @@ def parameter_writer_rule(prog, res, rule='parameter-write'):
     # payload
     alt = ck.take(('alt',))
     o = orient(alt, ('(local:hasSize > 0)', '(local:hasSize != 0)', '(local:hasSize >= 1)')) if alt is not None else None
-    if alt is None or o is None or io_only(o[1]):
+    if alt is None or o is None:
+        ck.shape('data', ck.where(alt or ck.peek()), 'expected the payload to be written iff the element count is positive, found %s' % _describe(alt or ck.peek()))
+    elif io_only(o[1]):
         ck.bad('data', ck.where(alt), 'expected the payload to be written iff the element count is positive, found %s' % describe(alt))
     else:
         payload_writer(prog, res, rule, f, (alt[0], alt[1], o[0], o[1]) + tuple(alt[4:]), ck)
@@ -726,17 +794,33 @@ def has_size_rule(prog, res, rule, f):
     if ok:
         res.ok(rule, 'parameter.data.count', f.loc(), 'element count = product over all dimensions', function=f.sig, expr='parameter.data.count')
     else:
-        res.viol(rule, 'parameter.data.count', f.loc(), detail, function=f.sig, expr='parameter.data.count')
+        res.undecided(rule, 'parameter.data.count', f.loc(), detail + ' [shape not read by the rule]', function=f.sig, expr='parameter.data.count')
 
 
 def char_cell(ck, strsrc, cite):
     """text + (dim0 - len) spaces = exactly dim[0] bytes"""
     d = ck.w_string('data.char.text', strsrc, strsrc + '.size', cite=cite)
-    lp = ck.take(('loop',))
     want = 'this._dimension[0] + -1*%s.size' % strsrc
-    if lp is None or pshow(lp[1]) not in (want, '-1*%s.size + this._dimension[0]' % strsrc):
-        ck.bad('data.char.padding', ck.where(lp) if lp else (d['where'] if d else ck.fn.loc()),
-               'a character cell must be exactly dimension[0] bytes: text followed by (dimension[0] - length) padding bytes; found %s' % describe(lp), facts={'cite': cite})
+    wants = [want, '-1*%s.size + this._dimension[0]' % strsrc]
+    nxt = ck.peek()
+    # idiom 2: one write of a buffer of N spaces (std::string(N, ' ')), possibly under `if (N > 0)` / `if (len < dim0)`
+    fill = nxt
+    if nxt is not None and nxt[0] == 'alt' and not io_only(nxt[3]) and len(io_only(nxt[2])) == 1 and \
+            re.match(r'^\(?%s\.size < this\._dimension\[0\]\)?$|^\(?this\._dimension\[0\] > %s\.size\)?$' % (re.escape(strsrc), re.escape(strsrc)), nxt[1]):
+        fill = io_only(nxt[2])[0]
+    if fill is not None and fill[0] == 'io' and fill[1].get('srck') == 'fill':
+        ck.take((nxt[0],))
+        dd = fill[1]
+        if dd.get('fill_char') != 32:
+            ck.bad('data.char.padding', dd['where'], 'cells are padded with character code %s, the format pads with spaces' % dd.get('fill_char'), facts={'cite': cite})
+        elif pshow(dd.get('fill_n')) in wants and pshow(dd.get('width')) in wants:
+            ck.ok('data.char.padding', dd['where'], '%s spaces written at once' % want)
+        else:
+            ck.bad('data.char.padding', dd['where'], 'a character cell must be exactly dimension[0] bytes: %s padding byte(s) are written from a buffer of %s, specified %s' %
+                   (pshow(dd.get('width')), pshow(dd.get('fill_n')), want), facts={'cite': cite})
+        return
+    lp = ck.take(('loop',)) or ck.peek()
+    if not ck.want_loop('data.char.padding', lp, wants, 'a character cell must be exactly dimension[0] bytes: text followed by (dimension[0] - length) padding bytes'):
         return
     c = Checker(ck.prog, ck.res, ck.rule, ck.fn, lp[3], ck.prefix)
     c.w_object('data.char.padding', 1, vals=['32'])
@@ -782,7 +866,10 @@ def leaf_writer(prog, res, rule, f, leaf_items, prefix):
         c.done()
         ok = ok and not c.failed
         cur = io_only(it[3])
-    if seen != {'1', '2', '4', '-1'}:
+    if seen != {'1', '2', '4', '-1'} and cur:
+        res.undecided(rule, prefix + '.types', f.loc(), 'the element writer dispatches on the type in a form the rule does not read (%s); types read so far: %s' % (_describe(cur[0]), sorted(seen)),
+                      function=f.sig, expr=prefix + '.types')
+    elif seen != {'1', '2', '4', '-1'}:
         res.viol(rule, prefix + '.types', f.loc(), 'element writer handles types %s, the format has -1, 1, 2, 4' % sorted(seen), function=f.sig, expr=prefix + '.types')
     else:
         res.ok(rule, prefix + '.types', f.loc(), 'all four element types handled', function=f.sig, expr=prefix + '.types')
@@ -794,7 +881,7 @@ def payload_writer(prog, res, rule, f, alt, ck):
     g = prog.fn('ezc3d::ParametersNS::GroupNS::Parameter::writeImbricatedParameter', nparams=4)
     okr, why, leaf = recursion_scheme(prog, g, 2, 1, 'w')
     if not okr:
-        res.viol(rule, 'parameter.data.recursion', g.loc(), why, function=g.sig, expr='parameter.data.recursion')
+        (res.undecided if why.startswith('shape: ') else res.viol)(rule, 'parameter.data.recursion', g.loc(), why, function=g.sig, expr='parameter.data.recursion')
         return
     res.ok(rule, 'parameter.data.recursion', g.loc(), 'for (i < dim[cur]) { cur == last ? element : recurse(cur+1) }: emits prod(dim[cur0:]) elements in order', function=g.sig, expr='parameter.data.recursion')
     # the counter: incremented exactly once per leaf, threaded through the recursion
@@ -804,14 +891,16 @@ def payload_writer(prog, res, rule, f, alt, ck):
     rets = [Rg.render(n['ch'][0]) for n in g.all_nodes({'ReturnStmt'}) if n['ch']]
     if len(incs) == 1 and len(rec_assign) == 1 and rets == ['arg3']:
         res.ok(rule, 'parameter.data.counter', g.loc(), 'element index advances by one per element and is threaded through the recursion', function=g.sig, expr='parameter.data.counter')
+    elif not incs and not [n for n in g.all_nodes({'CompoundAssignOperator'}) if Rg.render(n['ch'][0]) == 'arg3']:
+        res.viol(rule, 'parameter.data.counter', g.loc(), 'the element counter is never advanced: every element would be written from the same slot', function=g.sig, expr='parameter.data.counter')
     else:
-        res.viol(rule, 'parameter.data.counter', g.loc(), 'element counter is not (++ once per element, cmp = recurse(...), return cmp)', function=g.sig, expr='parameter.data.counter')
+        res.undecided(rule, 'parameter.data.counter', g.loc(), 'element counter is not (++ once per element, cmp = recurse(...), return cmp) [shape not read by the rule]', function=g.sig, expr='parameter.data.counter')
     leaf_writer(prog, res, rule, g, leaf, 'parameter.element')
     # dispatch in Parameter::write
     inner = io_only(alt[2])
     oa = orient(inner[0], '((int)this._data_type == -1)') if len(inner) == 1 and inner[0][0] == 'alt' else None
     if oa is None:
-        ck.bad('data.dispatch', ck.where(inner[0] if inner else None), 'expected the CHAR / numeric dispatch')
+        ck.shape('data.dispatch', ck.where(inner[0] if inner else None), 'expected the CHAR / numeric dispatch, found %s' % _describe(inner[0] if inner else None))
         return
     a = (inner[0][0], inner[0][1], oa[0], oa[1]) + tuple(inner[0][4:])
     ch = io_only(a[2])
@@ -824,10 +913,13 @@ def payload_writer(prog, res, rule, f, alt, ck):
         els = io_only(ch[0][3])
         if len(els) == 1 and els[0][0] == 'call' and els[0][1].usr == g.usr and els[0][2].get('arg1') == 'this._dimension' and els[0][2].get('arg2') == '1' and els[0][2].get('arg3', '0') in ('0', 'default'):
             ck.ok('data.char-matrix', ck.where(els[0]), 'prod(dimension[1:]) cells through the element recursion starting at dimension 1')
+        elif len(els) == 1 and els[0][0] == 'call' and els[0][1].usr == g.usr:
+            ck.bad('data.char-matrix', ck.where(els[0]), 'CHAR matrix must be written by the element recursion over dimensions 1.. with the counter at 0; the recursion is started with %s' %
+                   {k: v for k, v in els[0][2].items() if k in ('arg1', 'arg2', 'arg3')})
         else:
-            ck.bad('data.char-matrix', ck.where(els[0] if els else ch[0]), 'CHAR matrix must be written by the element recursion over dimensions 1.. with the counter at 0')
+            ck.shape('data.char-matrix', ck.where(els[0] if els else ch[0]), 'CHAR matrix is not written by one call of the element recursion')
     else:
-        ck.bad('data.char', ck.where(ch[0] if ch else a), 'expected the 1-D / matrix alternative for CHAR data')
+        ck.shape('data.char', ck.where(ch[0] if ch else a), 'expected the 1-D / matrix alternative for CHAR data, found %s' % _describe(ch[0] if ch else None))
     num = io_only(a[3])
     DS = ('!((bool)this._name.compare("DATA_START"))', '(this._name == "DATA_START")', 'std::operator==(this._name,"DATA_START")', '(this._name.compare("DATA_START") == 0)')
     od = orient(num[0], DS) if len(num) == 1 and num[0][0] == 'alt' else None
@@ -837,17 +929,22 @@ def payload_writer(prog, res, rule, f, alt, ck):
         num = [(num[0][0], num[0][1], od[0], od[1]) + tuple(num[0][4:])]
         c2 = Checker(prog, res, rule, f, num[0][2], 'parameter.data_start')
         sl = c2.take(('slot',))
-        if sl is None or sl[1] != 'tell' or sl[2] != 'arg2':
-            c2.bad('slot', c2.where(sl), 'the position of the DATA_START value must be remembered in the out parameter')
+        if sl is not None and sl[1] == 'tell' and sl[2] != 'arg2':
+            c2.bad('slot', c2.where(sl), 'the position of the DATA_START value must be remembered in the out parameter (it is stored to %s)' % sl[2])
+        elif sl is None or sl[1] != 'tell':
+            c2.shape('slot', c2.where(sl or c2.peek()), 'the position of the DATA_START value must be remembered in the out parameter')
         c2.w_object('slot.placeholder', 2, vals=['0'])
         c2.done()
         els = io_only(num[0][3])
         if len(els) == 1 and els[0][0] == 'call' and els[0][1].usr == g.usr and els[0][2].get('arg1') == 'this._dimension' and els[0][2].get('arg2', '0') in ('0', 'default') and els[0][2].get('arg3', '0') in ('0', 'default'):
             ck.ok('data.numeric', ck.where(els[0]), 'prod(dimension) elements through the element recursion starting at dimension 0')
+        elif len(els) == 1 and els[0][0] == 'call' and els[0][1].usr == g.usr:
+            ck.bad('data.numeric', ck.where(els[0]), 'numeric payload must be written by the element recursion over all dimensions with the counter at 0; the recursion is started with %s' %
+                   {k: v for k, v in els[0][2].items() if k in ('arg1', 'arg2', 'arg3')})
         else:
-            ck.bad('data.numeric', ck.where(els[0] if els else num[0]), 'numeric payload must be written by the element recursion over all dimensions with the counter at 0')
+            ck.shape('data.numeric', ck.where(els[0] if els else num[0]), 'numeric payload is not written by one call of the element recursion')
     else:
-        ck.bad('data.numeric', ck.where(num[0] if num else a), 'expected the DATA_START special case / generic numeric payload alternative')
+        ck.shape('data.numeric', ck.where(num[0] if num else a), 'expected the DATA_START special case / generic numeric payload alternative, found %s' % _describe(num[0] if num else None))
 
 
 # ---------------------------------------------------------------------------------------------
@@ -1599,6 +1696,11 @@ def copy_completeness_rule(prog, res, rule='copy-complete'):
                 res.ok(rule, short, f.loc(), 'copied from the same member of the source', function=f.sig, expr=fl['name'])
                 continue
             K = vector_size_invariant(prog, f.cls, fl['name'])
+            g0 = (got.get(base) or '').replace(' ', '')
+            if K and (re.match(r'^std::vector<[^{]*\{%s\.begin\(\),(?:%s\.begin\(\)\.operator\+\(%d\)|\(%s\.begin\(\)\+%d\)|%s\.end\(\))(?:,default)?\}$' %
+                               (re.escape(src), re.escape(src), K, re.escape(src), K, re.escape(src)), g0)):
+                res.ok(rule, short, f.loc(), 'constructed from the source\'s %d components [begin, begin + %d)' % (K, K), function=f.sig, expr=fl['name'])
+                continue
             if K:
                 bad = None
                 for k in range(K):
